@@ -1,0 +1,10 @@
+//go:build !verif
+// +build !verif
+
+package skiplist
+
+import "unsafe"
+
+// Verification yield points (see verif_on.go). Without the "verif" build tag
+// they compile to nothing.
+func verifYield(pt int, a, b unsafe.Pointer, x int) {}
